@@ -2,9 +2,9 @@ use nom::{
     IResult,
     bytes::complete::take_while,
     character::complete::satisfy,
-    combinator::{eof, map, opt, peek, recognize},
+    combinator::{eof, opt, peek, recognize},
     multi::many_till,
-    sequence::tuple,
+    sequence::{preceded, terminated, tuple},
 };
 
 use super::super::{
@@ -50,12 +50,11 @@ impl Parser for File {
     fn parse(input: &str) -> IResult<&str, File> {
         let mut t: File = Default::default();
 
-        let (remain, items) = many_till(
-            map(
-                tuple((opt(blank), Item::parse, opt(blank))),
-                |(_, item, _)| item,
-            ),
-            eof,
+        // blanks in front of the first item are consumed once, so that a file that holds
+        // nothing but white space and comments is the empty document
+        let (remain, items) = preceded(
+            opt(blank),
+            many_till(terminated(Item::parse, opt(blank)), eof),
         )(input)?;
 
         t.items = items.0;
